@@ -392,6 +392,94 @@ theorem compact_fast_succeeds_on_clean_wal {h : Header} {fs : List Frame} {tail 
   simp only [compact, clean_parse c, e1, ho, scanLiteral_eq _ ho, hw]
   simp
 
+/-! ### SQLite's checkpoint as an external component with laws -/
+
+/-- SQLite's checkpoint as an external component: a function from (page size, database pages,
+WAL frames) to database pages, with the laws the property relies on. -/
+structure SqliteCkpt where
+  ck : Nat → List Bytes → List Frame → List Bytes
+  /-- frames after the last commit frame are ignored -/
+  ignores_uncommitted : ∀ ps db fs, ck ps db fs = ck ps db (committed fs)
+  /-- a WAL without a commit frame leaves the database unchanged -/
+  unchanged_without_commit : ∀ ps db fs, finalSize fs = none → ck ps db fs = db
+  /-- the file is cut / extended to the database size recorded by the last commit frame -/
+  size_is_final : ∀ ps db fs n, finalSize fs = some n → (ck ps db fs).length = n
+  /-- committed frames are applied in order: every page within the final size holds its LAST
+  committed frame; pages without a frame keep the database's content (zeros past its old end) -/
+  page_is_latest : ∀ ps db fs n i, finalSize fs = some n → i < n →
+    (ck ps db fs).getD i [] = (match latest (i + 1) (committed fs) with
+      | some d => d
+      | none => db.getD i (List.replicate ps 0))
+
+theorem list_ext_getD {α : Type} (d : α) : ∀ (a b : List α), a.length = b.length →
+    (∀ i, i < a.length → a.getD i d = b.getD i d) → a = b := by
+  intro a
+  induction a with
+  | nil => intro b hl _; cases b with | nil => rfl | cons _ _ => simp at hl
+  | cons x t ih =>
+    intro b hl h
+    cases b with
+    | nil => simp at hl
+    | cons y u =>
+      have h0 : x = y := h 0 (Nat.zero_lt_succ _)
+      have := ih u (by simpa using hl) (fun i hi => by
+        have := h (i + 1) (by simpa using hi)
+        simpa using this)
+      rw [h0, this]
+
+theorem committed_idem : ∀ fs : List Frame, committed (committed fs) = committed fs := by
+  intro fs
+  induction fs with
+  | nil => rfl
+  | cons f rest ih =>
+    by_cases h : committed rest ≠ []
+    · have e : committed (f :: rest) = f :: committed rest := by simp [committed, h]
+      rw [e]; simp [committed, ih, h]
+    · have h' : committed rest = [] := by simpa using h
+      by_cases hc : f.commit ≠ 0
+      · have e : committed (f :: rest) = [f] := by simp [committed, h', hc]
+        rw [e]; simp [committed, hc]
+      · have e : committed (f :: rest) = [] := by simp [committed, h', hc]
+        rw [e]; rfl
+
+/-- the laws pin the function down: any two lawful checkpoints agree everywhere -/
+theorem lawful_ckpt_unique (A B : SqliteCkpt) (ps : Nat) (db : List Bytes) (fs : List Frame) :
+    A.ck ps db fs = B.ck ps db fs := by
+  cases hn : finalSize fs with
+  | none => rw [A.unchanged_without_commit ps db fs hn, B.unchanged_without_commit ps db fs hn]
+  | some n =>
+    apply list_ext_getD []
+    · rw [A.size_is_final ps db fs n hn, B.size_is_final ps db fs n hn]
+    · intro i hi
+      rw [A.size_is_final ps db fs n hn] at hi
+      rw [A.page_is_latest ps db fs n i hn hi, B.page_is_latest ps db fs n i hn hi]
+
+/-- the model's `ckpt` is a lawful checkpoint (and it is the function validated against real
+SQLite checkpoints by the run) -/
+def modelCkpt : SqliteCkpt where
+  ck := ckpt
+  ignores_uncommitted := by
+    intro ps db fs
+    simp only [ckpt, finalSize, committed_idem]
+  unchanged_without_commit := by
+    intro ps db fs h; simp [ckpt, h]
+  size_is_final := by
+    intro ps db fs n h; simp [ckpt, h]
+  page_is_latest := by
+    intro ps db fs n i h hi
+    simp only [ckpt, h]
+    rw [List.getD_eq_getElem?_getD, List.getElem?_map, List.getElem?_range hi]
+    simp
+    cases latest (i + 1) (committed fs) <;> rfl
+
+/-- **compact_equiv for every lawful checkpoint.** Whatever SQLite's checkpoint is, as long as
+it obeys the four laws, checkpointing the compacted frames equals checkpointing the original. -/
+theorem compact_equiv_lawful (C : SqliteCkpt) (ps : Nat) (db : List Bytes) (fs : List Frame)
+    (h : openTx fs = false) : C.ck ps db (compactFrames fs) = C.ck ps db fs := by
+  rw [lawful_ckpt_unique C modelCkpt, lawful_ckpt_unique C modelCkpt ps db fs]
+  exact compact_equiv ps db fs h
+
+
 /-! ### valid prefix -/
 
 /-- one step of the checksumming scan: either it stops, or it emits the frame at the head of
